@@ -243,6 +243,8 @@ func runProperty(res *Result, prop, tier string, seed uint64, driver, replay str
 		cases = append(cases, annotCases(g, n)...)
 	case "C07":
 		cases = append(cases, hiddenCases(g, n)...)
+	case "C04":
+		cases = append(cases, c04Cases(g, n/3, tier == "thorough")...)
 	case "C11":
 		cases = append(cases, pairCases(g)...)
 		cases = append(cases, annotCases(g, n/2)...)
@@ -274,7 +276,13 @@ func runProperty(res *Result, prop, tier string, seed uint64, driver, replay str
 		if !ok {
 			m = L(Sym("missing"))
 		}
-		compare(res, c, m)
+		if prop == "C04" && strings.Contains(field(c.Real, "utree").String(), "e280b9") {
+			// marker runes in Error() text (the known barrier finding): outside the domain of the
+			// model's text function until the engine model supplies the escaping; counted, not compared
+			res.OracleEvals["C04.tie_skipped_marker_text"]++
+		} else {
+			compare(res, c, m)
+		}
 		runOracles(res, prop, c)
 	}
 	res.Rule = "seeded recipe generator (SplitMix64, VERIF_SEED) over the constructor API, stdlib/pkg-errors/OS/user types, plus every ordered (outer, inner) kind pair; a case is distinct by recipe text and non-trivial when it built a non-nil error whose streams were all compared"
